@@ -203,7 +203,7 @@ def _grouping_cat(rng, alias, n_valid, small):
 
 def gen_numarr_case(rng, k, shape=None):
     shape = shape or rng.choice(["alone", "cat", "cat", "cat", "cat", "cat", "mr", "mr",
-                                 "catcat", "catcat", "four"])
+                                 "catcat", "catcat", "four", "ca"])
     n_items = rng.randint(1, 4) if shape == "alone" else rng.randint(2, 3)
     square = rng.random() < 0.75
 
@@ -216,6 +216,10 @@ def gen_numarr_case(rng, k, shape=None):
         vs = [_grouping_cat(rng, "v0", nv(), False)]
     elif shape == "mr":
         vs = [gen.make_mr(rng, "v0", n_items=min(3, nv()) if not square else n_items)]
+    elif shape == "ca":
+        vs = [gen.make_ca(rng, "v0", n_items=n_items if square else rng.randint(1, 3),
+                          n_valid=n_items if square else rng.randint(1, 3),
+                          n_missing=rng.choice([0, 0, 1]))]
     elif shape == "catcat":
         vs = [_grouping_cat(rng, "v0", nv() if square else rng.randint(1, 3), True),
               _grouping_cat(rng, "v1", nv() if square else rng.randint(1, 3), True)]
@@ -436,7 +440,7 @@ def type_class(name):
 
 def numarr_class(case):
     ap = [a for a in case["_axes"] if a["role"] not in ("mr_sel", "numarr")]
-    tag = {"mr_items": "Mr"}
+    tag = {"mr_items": "Mr", "ca_items": "Arr"}
     names = [tag.get(a["role"], "Cat") for a in ap]
     return "NumArr" + "".join("x" + n for n in names)
 
